@@ -497,11 +497,14 @@ def bld_pred(which):
                 return "step %d (%s): %s" % (k, op or "end", notes)
             if not op:
                 continue
-            if op[0] == "K":
+            if op[0] in "KJ":
                 cid += 1
                 faulted = True
-                tok_of[cid] = int(op[1:])
+                tok_of[cid] = int(op[1:].split(":")[0])
                 served_at[cid] = k      # its service call panicked
+                if op[0] == "J":
+                    cid += 1
+                    tok_of[cid] = int(op[1:].split(":")[1])
             elif op[0] in "cE":
                 cid += 1
                 tok_of[cid] = int(op[1:])
@@ -564,7 +567,7 @@ def bld_stream(ctx, which, flags_choices, n_quick, n_thorough, **kw):
     def nontrivial(c, m):
         st = bld_parse_trace(m) or []
         W, L, _, _ = bld_parse_case(c)
-        return any(a >= L for (_, _, act, _) in st for a in act) or any(op in ("P",) or op[:1] in ("E", "K") for (op, _, _, _) in st)
+        return any(a >= L for (_, _, act, _) in st for a in act) or any(op in ("P",) or op[:1] in ("E", "K", "J") for (op, _, _, _) in st)
 
     def shrink(case):
         head = case.split(";exp=")[0]
